@@ -77,6 +77,7 @@ DEFAULT_PROFILE: Dict[str, Any] = {
     'imports_last': False,    # every module defines first and imports at the bottom (so a module that is read while half built
                               # - import cycles - has already defined everything it defines itself)
     'back_edge_bottom': False,  # cyclic worlds: the imports that close a cycle sit at the bottom of the module, after every definition
+    'nested_refs': 0.0,       # probability that references to nested classes (`Outer.Inner`, `alias.Outer.Inner`) are offered
     'hide_overrides': 0.0,    # probability per class with an overriding member of a privacy rule hiding that member (or the class)
     'docassign_modules': False,  # __doc__ assignments may also target a module through its alias
     'submodule_clash': 0.0,   # probability that a package __init__ defines a function named like a sub-module nothing imports
@@ -474,6 +475,19 @@ class _Gen:
                     for n2, b2 in self.ns[b[1]].items():
                         if b2[0] == 'd' and self.defs[b2[1]]['kind'] == 'class' and self._routes.get((b[1], n2)) == 'local':
                             out.append({'expr': f'{name}.{n2}', 'id': b2[1], 'route': 'classscope-import-as-attr', 'via': b[1]})
+        if self.p.get('nested_refs', 0):
+            # paths that continue below a class: `Outer.Inner`, `alias.Outer.Inner` (the route is that of the outer class)
+            more = []
+            for r in out:
+                if r['route'] == 'classscope':
+                    continue
+                for i2, d2 in self.defs.items():
+                    n2 = d2['name']
+                    if d2['kind'] == 'class' and d2.get('outer') == r['id']:
+                        more.append({'expr': f'{r["expr"]}.{n2}', 'id': i2, 'route': r['route'], 'via': r['via'], 'nested': True})
+            if more and rng.sub('nested-refs').chance(self.p['nested_refs']):
+                # offered often enough to be picked: once per outer reference
+                out = out + more + more
         return out
 
     def _module_attr_paths(self, expr: str, modname: str, depth: int) -> Iterator[Tuple[str, int, str]]:
